@@ -41,7 +41,19 @@ for meta in "$HERE"/mutants/*.json; do
   if [ -n "$FILTER" ] && ! echo " $FILTER " | grep -q " $prop "; then continue; fi
   metas+=("$meta")
 done
+# the seeded changes written by independent sub-agents (/verif/seeded/<id>/patch.diff) belong to the corpus too
+for sd in "$VERIF"/seeded/C*/; do
+  id=$(basename "$sd")
+  [ -f "$sd/patch.diff" ] || continue
+  if [ -n "$FILTER" ] && ! echo " $FILTER " | grep -q " $id "; then continue; fi
+  tmpm="/tmp/selftest-seed-$$-$id"
+  mkdir -p "$tmpm"
+  cp "$sd/patch.diff" "$tmpm/$id.patch"
+  printf '{"name": "seeded", "property": "%s", "expect": "property=%s", "existing_tests": "pass"}\n' "$id" "$id" > "$tmpm/$id.json"
+  metas+=("$tmpm/$id.json")
+done
 printf '%s\n' "${metas[@]}" | xargs -P 6 -I{} bash -c 'run_one "$@"' _ {} | tee /tmp/selftest.$$.out
+rm -rf /tmp/selftest-seed-$$-*
 bad=$(grep -c "^FAIL\|^SELFTEST-ERROR" /tmp/selftest.$$.out); tot=$(wc -l < /tmp/selftest.$$.out); rm -f /tmp/selftest.$$.out
 echo "selftest: $((tot-bad))/$tot mutants behaved as required"
 [ "$bad" -eq 0 ]
